@@ -645,10 +645,10 @@ def main():
                 res, _ = run_reader(p, FStream(data), cfg, 12)
                 check_C01(em, data, res, cfg, "header announces %d payload bytes, the data is CRC-consistent at %d" % (L, n_))
                 em.count("crafted.otherlength")
-        # the same with the candidate's extent filled up exactly by line terminators / blanks / NULs behind the shorter CRC-consistent data
+        # the same with the candidate's extent filled up exactly by line terminators / blanks behind the shorter CRC-consistent data
         # (a parser that trims such bytes before checking would accept the candidate, and the reader would deliver the untrimmed bytes)
         for L in (21, 64, 300) + tuple(rng.sample(range(8, 1000), 3 if thorough else 1)):
-            for tail in (b"\n", b"\r", b"\r\n", b"\n\n", b"\n\r", b"\r\n\r\n", b"\r\r\n", b" ", b"  ", b"\t\n", b"\x00", b"\x00\x00", b"\x00\r\n"):
+            for tail in (b"\n", b"\r", b"\r\n", b"\n\n", b"\n\r", b"\r\n\r\n", b"\r\r\n", b" ", b"  ", b"\t\n"):      # (not NUL bytes: zeros behind a CRC-consistent buffer keep it CRC-consistent)
                 n_ = L - len(tail)
                 hdr = bytes([0xD3, L >> 8, L & 255])
                 body = bytes([0x3e, 0xd0]) + bytes(rng.choice([x for x in range(256) if x != 0xD3]) for _ in range(n_ - 2))
